@@ -95,6 +95,37 @@ macro_rules! run_cmd {
     }};
 }
 
+macro_rules! cases_cmd {
+    ($modname:ident, $args:expr) => {{
+        let args = $args;
+        let path = arg(args, "--cases").expect("--cases");
+        let seed: u64 = arg(args, "--seed").map(|s| s.parse().unwrap()).unwrap_or(1);
+        let first: u64 = arg(args, "--first-index").map(|s| s.parse().unwrap()).unwrap_or(0);
+        let f = std::io::BufReader::new(std::fs::File::open(path).expect("case file"));
+        let mut n = first;
+        let mut mism: Vec<Value> = vec![];
+        let mut classes = std::collections::BTreeMap::<String, u64>::new();
+        for line in f.lines() {
+            let line = line.unwrap();
+            if line.trim().is_empty() {
+                continue;
+            }
+            let c: Value = serde_json::from_str(&line).expect("case json");
+            let (got, extra) = $modname::run_case(&c, seed, n);
+            *classes.entry(format!("{}:{}", c["op"].as_str().unwrap_or("?"), got)).or_insert(0) += 1;
+            let exp = c["expect"].as_str().unwrap_or("?");
+            if got != exp {
+                mism.push(json!({"index": n, "group": $modname::GROUP, "seed": seed, "case": c,
+                    "message": format!("{}: specification predicts {}, library returned {}{}", c["op"].as_str().unwrap_or("?"), exp, got, extra.map(|e| format!(" ({})", e)).unwrap_or_default())}));
+            } else if let Some(e) = extra {
+                mism.push(json!({"index": n, "group": $modname::GROUP, "seed": seed, "case": c, "message": format!("{}: {}", c["op"].as_str().unwrap_or("?"), e)}));
+            }
+            n += 1;
+        }
+        println!("{}", json!({"group": $modname::GROUP, "executed": n - first, "classes": classes, "mismatches": mism}));
+    }};
+}
+
 fn main() {
     let args: Vec<String> = std::env::args().collect();
     let cmd = args.get(1).map(|s| s.as_str()).unwrap_or("");
@@ -104,6 +135,10 @@ fn main() {
         "run" => match arg(&args, "--group").unwrap_or("rist") {
             "fm" => run_cmd!(fmx, &args),
             _ => run_cmd!(rist, &args),
+        },
+        "cases" => match arg(&args, "--group").unwrap_or("rist") {
+            "fm" => cases_cmd!(fmx, &args),
+            _ => cases_cmd!(rist, &args),
         },
         "trace" => {
             // run scenarios on the free-module group with every instrument recording; write ndjson trace events
